@@ -644,31 +644,171 @@ func sgn(n int) string {
 
 func c13Filter(p *core.Program, r *core.Report, t *types.Named) {
 	fi := p.Method("util/list", t.Obj().Name(), "Filtering")
-	if fi == nil || fi.Decl.Body == nil {
+	if fi == nil || fi.Decl.Body == nil || fi.Decl.Type.Params.NumFields() != 1 {
 		return
 	}
-	ok := false
-	ast.Inspect(fi.Decl.Body, func(n ast.Node) bool {
-		loop, isL := n.(*ast.ForStmt)
-		if !isL {
-			return true
-		}
-		post, isInc := loop.Post.(*ast.IncDecStmt)
-		if !isInc || post.Tok != token.INC {
-			return true
-		}
-		ast.Inspect(loop.Body, func(m ast.Node) bool {
-			if call, isC := m.(*ast.CallExpr); isC {
-				s := stripSpaces(types.ExprString(call))
-				if strings.HasPrefix(s, "out.add(") && strings.Contains(s, ".get(index[i])") {
-					ok = true
+	// Filtering(index) = [ this.get(index[0]), this.get(index[1]), ... ]: one loop over the index list
+	// in ascending position order (counted from 0 or `range index`) whose body appends to the result
+	// exactly the receiver's element at the index found at that position.
+	info := fi.Pkg.TypesInfo
+	rn := recvName(fi)
+	pobj := info.Defs[fi.Decl.Type.Params.List[0].Names[0]]
+	isParam := func(e ast.Expr) bool {
+		id, ok := ast.Unparen(e).(*ast.Ident)
+		return ok && info.ObjectOf(id) == pobj
+	}
+	localDef := func(id *ast.Ident) ast.Expr {
+		var def ast.Expr
+		n := 0
+		ast.Inspect(fi.Decl.Body, func(m ast.Node) bool {
+			if as, ok := m.(*ast.AssignStmt); ok && len(as.Lhs) == len(as.Rhs) {
+				for i, l := range as.Lhs {
+					if lid, ok := l.(*ast.Ident); ok && info.ObjectOf(lid) == info.ObjectOf(id) {
+						def = as.Rhs[i]
+						n++
+					}
 				}
 			}
 			return true
 		})
+		if n == 1 {
+			return def
+		}
+		return nil
+	}
+	ok := false
+	why := "no loop over the index list that appends this.get(index[i])"
+	ast.Inspect(fi.Decl.Body, func(n ast.Node) bool {
+		var body *ast.BlockStmt
+		// elem(e): does e denote "the index at the current position"?
+		var elem func(e ast.Expr) bool
+		switch loop := n.(type) {
+		case *ast.ForStmt:
+			init, ok1 := loop.Init.(*ast.AssignStmt)
+			cond, ok2 := loop.Cond.(*ast.BinaryExpr)
+			if !ok1 || !ok2 || len(init.Lhs) != 1 || len(init.Rhs) != 1 || cond.Op != token.LSS {
+				return true
+			}
+			if v, isC := constIntOf(info, init.Rhs[0]); !isC || v != 0 {
+				return true
+			}
+			asc := false
+			switch post := loop.Post.(type) {
+			case *ast.IncDecStmt:
+				asc = post.Tok == token.INC
+			case *ast.AssignStmt:
+				asc = post.Tok == token.ADD_ASSIGN
+			}
+			if !asc {
+				return true
+			}
+			// bound: len(index) directly or through a local
+			bound := ast.Unparen(cond.Y)
+			if id, isId := bound.(*ast.Ident); isId {
+				if d := localDef(id); d != nil {
+					bound = ast.Unparen(d)
+				}
+			}
+			call, isCall := bound.(*ast.CallExpr)
+			if !isCall || len(call.Args) != 1 || !isParam(call.Args[0]) {
+				return true
+			}
+			if fid, isId := call.Fun.(*ast.Ident); !isId || fid.Name != "len" {
+				return true
+			}
+			iobj := info.ObjectOf(init.Lhs[0].(*ast.Ident))
+			elem = func(e ast.Expr) bool {
+				ix, isIx := ast.Unparen(e).(*ast.IndexExpr)
+				if !isIx || !isParam(ix.X) {
+					return false
+				}
+				id, isId := ast.Unparen(ix.Index).(*ast.Ident)
+				return isId && info.ObjectOf(id) == iobj
+			}
+			body = loop.Body
+		case *ast.RangeStmt:
+			if !isParam(loop.X) {
+				return true
+			}
+			var kobj, vobj types.Object
+			if kid, isId := loop.Key.(*ast.Ident); isId && kid.Name != "_" {
+				kobj = info.ObjectOf(kid)
+			}
+			if loop.Value != nil {
+				if vid, isId := loop.Value.(*ast.Ident); isId && vid.Name != "_" {
+					vobj = info.ObjectOf(vid)
+				}
+			}
+			elem = func(e ast.Expr) bool {
+				e = ast.Unparen(e)
+				if id, isId := e.(*ast.Ident); isId && vobj != nil && info.ObjectOf(id) == vobj {
+					return true
+				}
+				if ix, isIx := e.(*ast.IndexExpr); isIx && isParam(ix.X) && kobj != nil {
+					id, isId := ast.Unparen(ix.Index).(*ast.Ident)
+					return isId && info.ObjectOf(id) == kobj
+				}
+				return false
+			}
+			body = loop.Body
+		default:
+			return true
+		}
+		adds := 0
+		good := 0
+		ast.Inspect(body, func(m ast.Node) bool {
+			call, isC := m.(*ast.CallExpr)
+			if !isC || len(call.Args) != 1 {
+				return true
+			}
+			sel, isS := call.Fun.(*ast.SelectorExpr)
+			if !isS || (sel.Sel.Name != "add" && sel.Sel.Name != "Add") {
+				return true
+			}
+			if xid, isId := ast.Unparen(sel.X).(*ast.Ident); !isId || xid.Name == rn {
+				return true
+			}
+			adds++
+			arg := ast.Unparen(call.Args[0])
+			if aid, isId := arg.(*ast.Ident); isId {
+				if d := localDef(aid); d != nil {
+					arg = ast.Unparen(d)
+				}
+			}
+			// this.get(E) / this.Get(E) / this.table[E]
+			var inner ast.Expr
+			switch a := arg.(type) {
+			case *ast.CallExpr:
+				if gs, isS := a.Fun.(*ast.SelectorExpr); isS && len(a.Args) == 1 && (gs.Sel.Name == "get" || strings.HasPrefix(gs.Sel.Name, "Get")) {
+					if gid, isId := ast.Unparen(gs.X).(*ast.Ident); isId && gid.Name == rn {
+						inner = a.Args[0]
+					}
+				}
+			case *ast.IndexExpr:
+				if strings.ReplaceAll(stripSpaces(types.ExprString(a.X)), rn+".", "") == "table" {
+					inner = a.Index
+				}
+			}
+			if inner != nil {
+				if iid, isId := ast.Unparen(inner).(*ast.Ident); isId && !elem(inner) {
+					if d := localDef(iid); d != nil {
+						inner = d
+					}
+				}
+				if elem(inner) {
+					good++
+				}
+			}
+			return true
+		})
+		if adds == 1 && good == 1 {
+			ok = true
+		} else if adds > 0 {
+			why = "the loop over the index list does not append exactly this.get(<index at that position>) once per position"
+		}
 		return true
 	})
-	r.Check(ok, "C13.filter", "util/list."+t.Obj().Name()+".Filtering", p.Pos(fi.Decl.Pos()), "out.add(get(index[i])) for i ascending", "filtering does not append the selected elements in index-list order")
+	r.Check(ok, "C13.filter", "util/list."+t.Obj().Name()+".Filtering", p.Pos(fi.Decl.Pos()), "out.add(get(index[i])) for i ascending", "filtering does not append the selected elements in index-list order: "+why)
 }
 
 // c13Linked: pointer/size consistency of the linked list on every path.
